@@ -70,6 +70,13 @@ def plan(tier, seed):
     for n in range(1, nt + 1):
         for pi, _ in enumerate(E2.parent_vectors(n)):
             tasks.append(("encoder/forms", ("enc", n, pi, rt)))
+    nc = 6 if thorough else 5
+    scopes.append({"name": "encoder/chiral-forms", "n_max": nc, "r_max": 2, "tags": ["[C@]", "[C@@H]"],
+                   "desc": "ring-bearing written forms (standard and lenient spellings) with a stereo-centre at every position "
+                           "(the encoder rewrites such atoms), '/' on the first bond, multi-fragment variant", "table": RELAXED})
+    for n in range(3, nc + 1):
+        for pi, _ in enumerate(E2.parent_vectors(n)):
+            tasks.append(("encoder/chiral-forms", ("encchir", n, pi)))
     return {"scopes": scopes, "tasks": tasks, "bounds": {"decoder_L": grid[0][2], "encoder": [nt, rt]}}
 
 
@@ -303,6 +310,28 @@ def run(task):
         if last:
             r.sample({"scope": scope, "member": last[0], "decoder": last[1]}, 1)
             last = None
+    elif arg[0] == "encchir":
+        _, n, pi = arg
+        par = list(E2.parent_vectors(n))[pi]
+        for rings in E2.ring_sets(n, par, 2, 1):
+            variants = [({}, set())] + list(E2.lenient_variants(n, par, rings, 1))
+            for dp in E2.digit_orders(rings):
+                r.states += 1
+                for ds, pl in (variants if dp is None else variants[:1]):
+                    for i in range(n):
+                        for tag in ("[C@]", "[C@@H]"):
+                            at = ["C"] * n
+                            at[i] = tag
+                            bt = [""] * n
+                            smi = E2.write(n, par, rings, at, bt, digit_perm=dp, digit_slot=ds, paren_last=pl)
+                            x = check_encoder(smi, r)
+                            if i == 0:
+                                bt2 = list(bt)
+                                bt2[1] = "/"
+                                check_encoder(E2.write(n, par, rings, at, bt2, digit_perm=dp, digit_slot=ds, paren_last=pl) + ".Br", r)
+                            last = (smi, x)
+        if last:
+            r.sample({"scope": scope, "smiles": last[0], "encoder": last[1]}, 1)
     else:
         _, n, pi, rmax = arg
         par = list(E2.parent_vectors(n))[pi]
